@@ -233,9 +233,13 @@ open Lean in
 /-- Generate, for an invariant `I` (a term of type `St → Prop`), the preservation lemma of every procedure body
     (`bodyXxx_<sfx>`), of `execBody` and of `exec`.  `leaf` is the tactic run on every path of a body (it may refer to
     `hgo : GoInv I go` and `h : I s`); bodies listed after `except` are expected to have been proved by hand under
-    the same names.  `hoof` proves `∀ s, I s → I s.oof.1`. -/
-macro "chan_invariant " sfx:ident " : " I:term " oofBy " hoof:term " leafBy " leaf:tacticSeq " exceptBodies " ex:ident* : command => do
-  -- `exceptBodies … blocksOnly` generates only the `sq*` block lemmas; `… afterBlocks` everything else
+    the same names.  `hoof` proves `∀ s, I s → I s.oof.1`.  `goHyp go` is the type of the hypothesis `hgo` about the
+    calls a body makes (`GoInv I` by default). -/
+def mkChanInvariant (sfx : Ident) (I : Term) (goHyp : Term) (hoof : Term)
+    (leaf : TSyntax `Lean.Parser.Tactic.tacticSeq) (ex : Array Ident) : MacroM (TSyntax `command) := do
+  -- `exceptBodies … blocksOnly` generates only the `sq*` block lemmas; `… afterBlocks` everything else;
+  -- `… noExec` omits the `execBody` / `exec` theorems
+  let noExec := ex.any (fun i => i.getId.toString == "noExec")
   let blocksOnly := ex.any (fun i => i.getId.toString == "blocksOnly")
   let afterBlocks := ex.any (fun i => i.getId.toString == "afterBlocks")
   let sfxS := sfx.getId.toString
@@ -265,41 +269,41 @@ macro "chan_invariant " sfx:ident " : " I:term " oofBy " hoof:term " leafBy " le
     if afterBlocks && b.startsWith "sq" then continue
     let bid := mkIdent (Name.mkSimple b)
     let c ← match b with
-      | "sqChoose" => `(theorem $(nm b) {$go : Call → St → St × Ret} ($hgo : GoInv $I $go) (a1 : Option Nat) ($s : St)
+      | "sqChoose" => `(theorem $(nm b) {$go : Call → St → St × Ret} ($hgo : $goHyp $go) (a1 : Option Nat) ($s : St)
             ($h : $I $s) : $I (sqChoose a1 $s).2 := by unfold sqChoose; chan_paths; all_goals ($leaf))
-      | "sqOpen" => `(theorem $(nm b) {$go : Call → St → St × Ret} ($hgo : GoInv $I $go) ($s : St) (a1 : Query)
+      | "sqOpen" => `(theorem $(nm b) {$go : Call → St → St × Ret} ($hgo : $goHyp $go) ($s : St) (a1 : Query)
             (a2 : Server) (a3 : Option Nat) ($h : $I $s) : $I (sqOpen $s a1 a2 a3).2 := by
               unfold sqOpen; chan_paths; all_goals ($leaf))
-      | "sqPrep" => `(theorem $(nm b) {$go : Call → St → St × Ret} ($hgo : GoInv $I $go) ($s : St) (a1 : Query)
+      | "sqPrep" => `(theorem $(nm b) {$go : Call → St → St × Ret} ($hgo : $goHyp $go) ($s : St) (a1 : Query)
             (a2 : Server) (a3 a4 : Nat) ($h : $I $s) : $I (sqPrep $s a1 a2 a3 a4) := by
               unfold sqPrep; chan_paths; all_goals ($leaf))
-      | "sqWrite" => `(theorem $(nm b) {$go : Call → St → St × Ret} ($hgo : GoInv $I $go) ($s : St) (a1 : Nat)
+      | "sqWrite" => `(theorem $(nm b) {$go : Call → St → St × Ret} ($hgo : $goHyp $go) ($s : St) (a1 : Nat)
             ($h : $I $s) : $I (sqWrite $go $s a1).2 := by unfold sqWrite; chan_paths; all_goals ($leaf))
-      | "sqDeadline" => `(theorem $(nm b) {$go : Call → St → St × Ret} ($hgo : GoInv $I $go) ($s : St) (a1 : Server)
+      | "sqDeadline" => `(theorem $(nm b) {$go : Call → St → St × Ret} ($hgo : $goHyp $go) ($s : St) (a1 : Server)
             (a2 : Nat) ($h : $I $s) : $I (sqDeadline $s a1 a2).2 := by unfold sqDeadline; chan_paths; all_goals ($leaf))
-      | "sqCommit" => `(theorem $(nm b) {$go : Call → St → St × Ret} ($hgo : GoInv $I $go) ($s : St) (a1 : Query)
+      | "sqCommit" => `(theorem $(nm b) {$go : Call → St → St × Ret} ($hgo : $goHyp $go) ($s : St) (a1 : Query)
             (a2 a3 : Nat) (a4 : Deadline) ($h : $I $s) : $I (sqCommit $s a1 a2 a3 a4) := by
               unfold sqCommit; chan_paths; all_goals ($leaf))
-      | "sqAfter" => `(theorem $(nm b) {$go : Call → St → St × Ret} ($hgo : GoInv $I $go) (a1 : Query) (a2 : Server)
+      | "sqAfter" => `(theorem $(nm b) {$go : Call → St → St × Ret} ($hgo : $goHyp $go) (a1 : Query) (a2 : Server)
             (a3 a4 : Nat) (a5 : Bool) (a6 : Status) ($s : St) ($h : $I $s) : $I (sqAfter $go a1 a2 a3 a4 a5 a6 $s).1 := by
               unfold sqAfter; chan_paths; all_goals ($leaf))
-      | "sendQueryBlocks" => `(theorem $(nm b) {$go : Call → St → St × Ret} ($hgo : GoInv $I $go) (a1 : Option Nat)
+      | "sendQueryBlocks" => `(theorem $(nm b) {$go : Call → St → St × Ret} ($hgo : $goHyp $go) (a1 : Option Nat)
             (a2 : Nat) ($s : St) ($h : $I $s) : $I (sendQueryBlocks $go a1 a2 $s).1 := by
               unfold sendQueryBlocks; chan_paths; all_goals ($leaf))
-      | "bodySendQuery" => `(theorem $(nm b) {$go : Call → St → St × Ret} ($hgo : GoInv $I $go) (a1 : Option Nat)
+      | "bodySendQuery" => `(theorem $(nm b) {$go : Call → St → St × Ret} ($hgo : $goHyp $go) (a1 : Option Nat)
             (a2 : Nat) ($s : St) ($h : $I $s) : $I (bodySendQuery $go a1 a2 $s).1 := by
               rw [bodySendQuery_eq]; exact $(nm "sendQueryBlocks") $hgo a1 a2 $s $h)
       | _ =>
         let argIds : Array Ident := (args.map fun a => mkIdent (Name.mkSimple a)).toArray
-        `(theorem $(nm b) {$go : Call → St → St × Ret} ($hgo : GoInv $I $go) $argIds* ($s : St) ($h : $I $s) :
+        `(theorem $(nm b) {$go : Call → St → St × Ret} ($hgo : $goHyp $go) $argIds* ($s : St) ($h : $I $s) :
             $I ($bid $go $argIds* $s).1 := by unfold $bid:ident; chan_paths; all_goals ($leaf))
     cmds := cmds.push c
   -- execBody and exec
-  if blocksOnly then return ⟨mkNullNode cmds⟩
+  if blocksOnly || noExec then return ⟨mkNullNode cmds⟩
   let alts : Array (TSyntax `Lean.Parser.Tactic.tacticSeq) ←
     (bodies.filter (fun p => p.1.startsWith "body")).toArray.mapM fun (b, _) =>
       `(tacticSeq| apply $(nm b) $hgo; exact $h)
-  let c ← `(theorem $(nm "execBody") {$go : Call → St → St × Ret} ($hgo : GoInv $I $go) (c : Call) ($s : St)
+  let c ← `(theorem $(nm "execBody") {$go : Call → St → St × Ret} ($hgo : $goHyp $go) (c : Call) ($s : St)
       ($h : $I $s) : $I (execBody $go c $s).1 := by
         cases c <;> (unfold execBody; dsimp only; first $[| $alts]*))
   cmds := cmds.push c
@@ -308,5 +312,14 @@ macro "chan_invariant " sfx:ident " : " I:term " oofBy " hoof:term " leafBy " le
         (fun _ hgo c s h => $(nm "execBody") hgo c s h) fuel c $s $h)
   cmds := cmds.push c
   return ⟨mkNullNode cmds⟩
+
+
+open Lean in
+macro "chan_invariant " sfx:ident " : " I:term " oofBy " hoof:term " leafBy " leaf:tacticSeq " exceptBodies " ex:ident* : command => do
+  mkChanInvariant sfx I (← `(GoInv $I)) hoof leaf ex
+
+open Lean in
+macro "chan_invariant_go " sfx:ident " : " I:term " goBy " gh:term " oofBy " hoof:term " leafBy " leaf:tacticSeq " exceptBodies " ex:ident* : command => do
+  mkChanInvariant sfx I gh hoof leaf ex
 
 end Cares.Chan
